@@ -27,6 +27,16 @@ SPEC = {
              "V: fields set by the harness swept through their domain with libpcap programs compiled per value: TCP / UDP ports 0..65535 on four stacks, VLAN id 0..4095 outer and "
              "QinQ inner, PPPoE session id, ICMP type, TTL, address octet 0..255, MPLS label stride 251 (quick: stride 17 on 16-bit domains). "
              "P: every wire seed of the corpus (layer suffixes of all grammar packets + hand-written wire seeds) parsed by its entry point and re-serialized. "
+             "R: histories of serializations of ONE object, every output dissected and filtered: first serialize(), second serialize(), a clone (twice), a Packet copy, the object "
+             "wrapped into an EthernetII after it was serialized alone, the network layer detached from its link layer, then after src_addr() / dst_addr() on every IP / IPv6 layer, "
+             "after the payload grew by 3 bytes, after the transport child was swapped TCP <-> UDP, after the payload was removed, once more, and (outermost IP) after "
+             "src_addr(0.0.0.0) - applied to all 46 shapes x payload {0,7,8,133} (thorough + {1,45,46,600} and with the clone / the Packet copy serialized BEFORE the original), to "
+             "every grammar packet, to ICMP / ICMPv6 errors with and without length octet / extension / original datagram, and to 63 stacks whose outermost IP has NO source "
+             "address and destination 127.0.0.1 (TCP, UDP, ICMP, IP-in-IP with and without inner source, 6in4, IP options, TCP options, AH, ICMP errors; payload {0,1,7,8,45}) in "
+             "4 orders (itself / clone / Packet copy / wrapped in EthernetII first): there IP::prepare_for_serialize() looks the source up (lo) at serialization time and every "
+             "checksum must verify against the addresses in the SERIALIZED header; the same stacks below EthernetII / Dot1Q / SLL / Loopback / an outer IP, where the source that "
+             "was set (0.0.0.0) must be the one on the wire; plus the first serialization of a FRESH routed ip/tcp and ip/udp object for every 251st (thorough: every) value of a "
+             "payload word. skipped_no_route is counted instead when NetworkInterface(127.0.0.1) is not available. "
              "Oracle 1, reference dissector: reads the wire from the link type; per layer compared with the object that was serialized: header-length fields (IPv4 ihl, TCP data "
              "offset, IPv6 extension chain with every Hdr Ext Len, RadioTap it_len, AH length) = real header end; length fields (IPv4 tot_len, IPv6 payload_length, UDP length, 802.3 "
              "length, PPPoE payload_length, EAPOL length, RFC 4884 length octet, ND option lengths, MLDv2 record count) = bytes governed; the protocol named by every next-protocol tag "
@@ -50,5 +60,7 @@ SPEC = {
              "table), PPI / PKTAP (not serializable), packets > 65535 bytes and empty packets are skipped and counted."),
     "assumptions": ["builder alphabets stay within wire-representable sizes; unrepresentable layers are counted and not judged",
                     "the pseudo header of TCP/UDP/ICMPv6 behind an IPv6 routing header uses the destination address of the IPv6 header (libtins has no notion of the final destination)",
+                    "the sandbox has the loopback interface lo with 127.0.0.1 (route_to_127.0.0.1_available / skipped_no_route in the evidence say which); the looked-up source address itself is not judged, only that the wire is consistent with it",
+                    "an ICMP / ICMPv6 error built with an extension structure but without any original datagram is outside RFC 4884; judged there: the length octet is 0 and the structure behind the header verifies",
                     "DLT_NULL family values are read in host byte order; AF_INET6 = 10 and AF_LLC = 26 (Linux values) are accepted next to the BSD values 24/28/30"],
 }
